@@ -12,7 +12,14 @@ F_PF = 'atsim/potentials/config/_potential_form.py'
 F_PY = 'atsim/potentials/config/_python_potential_function.py'
 F_CX = 'atsim/potentials/config/_cexprtk_potential_function.py'
 F_REG = 'atsim/potentials/config/_potential_form_registry.py'
-FUNCTIONS = []
+import contracts.routes as RT
+# Engine A: the arity rule and the binding order of the access routes (the source-shape obligations on the same functions stay as tripwires)
+FUNCTIONS = [(RT.F_UTIL, '_rpartial.__call__'), (RT.F_PF, '_Check_Call.required_arg_len'), (RT.F_PF, '_Check_Call.args_valid')]
+MUTANTS = [
+    (RT.F_UTIL, '_rpartial.__call__', "args + self.args", "self.args + args", 'post'),
+    (RT.F_PF, '_Check_Call.required_arg_len', "argl = argl - 1", "argl = argl - 0", 'post'),
+    (RT.F_PF, '_Check_Call.args_valid', "len(args) == self.required_arg_len()", "len(args) >= self.required_arg_len()", 'post'),
+]
 r = B.R
 
 def lemmas():
